@@ -11,7 +11,7 @@
 import random
 
 from .. import scen, tlc, tour
-from ..framework import main, load_findings
+from ..framework import main, load_findings, as_built
 
 SHAPES = {
     'push2fail': (tour.PUSH2FAIL, [[1], []]),
@@ -92,7 +92,8 @@ def body(ctx):
     design(ctx, f5)
     # tour (design conformance)
     prog, rep = {'t1': tour.PUSH2FAIL}, {'t1': [[1], []]}
-    r = tour.host_run(prog, rep, False, f5, invariants=(), emit=True, deadlock=False, cached=True)
+    K1b, F5b, REG = as_built()
+    r = tour.host_run(prog, rep, K1b, F5b, invariants=(), emit=True, deadlock=False, cached=True, registry=REG)
     g = tour.Graph(tlc.printed(r, 'EDGE'))
     paths = g.tour()
     for mode in ('sync', 'async'):
